@@ -391,7 +391,7 @@ func racePass(c *core.Ctx) {
 	failures := 0
 	// baselines (written by check.sh): every operation once, sequentially, in a process with GOMAXPROCS=1
 	baseFile := map[string]string{}
-	for _, mode := range []string{"mixed", "qr", "rs", "same", "qrall", "color"} {
+	for _, mode := range []string{"mixed", "qr", "rs", "same", "qrall", "color", "sharedsrc"} {
 		f := fmt.Sprintf("%s/racebase.%s.json", os.Getenv("VERIF_RACEBASE"), mode)
 		if st, err := os.Stat(f); err != nil || st.Size() < 3 {
 			c.R.NotDone("S4: no GOMAXPROCS=1 baseline for mode %s", mode)
@@ -401,7 +401,7 @@ func racePass(c *core.Ctx) {
 	}
 	for _, g := range gcounts {
 		for _, p := range procs {
-			for _, mode := range []string{"mixed", "qr", "rs", "same", "qrall", "color"} {
+			for _, mode := range []string{"mixed", "qr", "rs", "same", "qrall", "color", "sharedsrc"} {
 				if mode == "same" && g > 8 {
 					continue // "same" runs every operation in g goroutines at once (g x ~75 goroutines)
 				}
@@ -576,7 +576,7 @@ func c16Body(c *core.Ctx) {
 	c.R.Bound("S2", fmt.Sprintf("all unordered pairs (thorough: triples) of %v from cold package state, group-level policy, preemption bound %d", s2, b2))
 	c.R.Bound("S3", "every schedule (iterative bounding continued until no alternative is cut; pruning on an exact global state key: per-thread operation/value histories + channel and lock states): iterateModules on 9x9, 13x13 and the version-1 function-pattern matrix; encodeAlphaNumeric on all words <= 3 over {A,Z,:,a,é}; splitToBlocks(IterateBytes) for v1-L, v3-Q, v5-Q; eight whole qr.Encode calls (Numeric, AlphaNumeric, Unicode, Auto, two error-returning, two that fill version 1-L to within 3 bits of capacity; quick tier: Numeric, Auto and the 41-digit capacity call with all non-preemptive schedules, preemption bound 0, plus the two error-returning calls with every schedule; the 25-character alphanumeric capacity call is left to S3e, which runs an alphanumeric capacity call of every version)")
 	c.R.Bound("S3e", "one whole qr.Encode per version 1..40 under the scheduler: default schedule and three probe schedules each (no branching)")
-	c.R.Bound("S4", "free-running -race pass: {mixed, qr, rs} x goroutines {2,8,64}, {same: every operation of the alphabet in 2 or 8 goroutines at once}, {color: ten families x plain and three colour schemes on contents of equal symbol size} and {qrall: one symbol of each version 1..40} x GOMAXPROCS {1,2,4,16} (QR modes also 3,5,6,7), each in a fresh process; observations are also compared with a GOMAXPROCS=1 baseline process (detector, not enumeration)")
+	c.R.Bound("S4", "free-running -race pass: {mixed, qr, rs} x goroutines {2,8,64}, {same: every operation of the alphabet in 2 or 8 goroutines at once}, {color: ten families x plain and three colour schemes on contents of equal symbol size}, {sharedsrc: one fresh barcode per family scaled to four sizes and read by different goroutines at once} and {qrall: one symbol of each version 1..40} x GOMAXPROCS {1,2,4,16} (QR modes also 3,5,6,7), each in a fresh process; observations are also compared with a GOMAXPROCS=1 baseline process (detector, not enumeration)")
 	c.R.Sample(map[string]any{"harness": "S1 0 2 3", "meaning": "two threads call Encode(_,2) and Encode(_,3) on one fresh encoder; all interleavings of the statements of reedsolomon.go with <= bound preemptions; oracle: both results == reference remainder, cache == reference generators"})
 	c.R.Sample(map[string]any{"harness": "S3b 0 A:a", "meaning": "every schedule of the alphanumeric producer/consumer pipeline on an input with an invalid third character; oracle: same result as alone, no goroutine left parked"})
 	_ = time.Now
@@ -611,6 +611,24 @@ func RaceOps(mode string) []RaceOp {
 		for _, d := range []int{30, 7, 13, 22, 2, 28, 17, 10} {
 			d := d
 			out = append(out, RaceOp{fmt.Sprintf("rs.Encode(%d)", d), func() string { return fmt.Sprint(enc.Encode(rsData("count", f, d), d)) }})
+		}
+	case "sharedsrc":
+		// one freshly encoded barcode per family (nobody has read a pixel yet), scaled to several sizes and
+		// read pixel by pixel by different goroutines at the same time: Scale may be called concurrently,
+		// also on one source
+		for _, src := range []call{{"ean", []byte("1234567"), nil}, {"c128", []byte("Ab1234"), []int{1}}, {"c39", []byte("CODE 39"), []int{1, 0}},
+			{"codabar", []byte("A123B"), nil}, {"qr", []byte("SHARED SOURCE"), []int{1, 0}}, {"dm", []byte("shared source"), nil},
+			{"az", []byte("shared source"), []int{33, 0}}, {"pdf", []byte("shared source"), []int{1}}} {
+			bc, err := src.run()
+			if err != nil || bc == nil {
+				continue
+			}
+			b := bc.Bounds()
+			for _, d := range [][2]int{{2*b.Dx() + 3, 2*b.Dy() + 11}, {3 * b.Dx(), 3*b.Dy() + 4}, {b.Dx(), b.Dy() + 30}, {4*b.Dx() + 1, 2*b.Dy() + 60}} {
+				d := d
+				out = append(out, RaceOp{fmt.Sprintf("Scale(%s,%d,%d)", src.pretty(), d[0], d[1]), func() string { return observe(barcode.Scale(bc, d[0], d[1])) }})
+			}
+			out = append(out, RaceOp{"read " + src.pretty(), func() string { return observe(bc, nil) }})
 		}
 	case "color":
 		// every family through its WithColor entry point under three schemes and plain, contents that give
